@@ -82,6 +82,9 @@ def order_sources(fn, name, seen=None):
             return ok_expr(e.value)
         if isinstance(e, (ast.SetComp, ast.DictComp, ast.Set, ast.Dict)):
             return False, None
+        # views of a dictionary keep one entry per key: repeated inputs collapse (and the order is that of first insertion)
+        if isinstance(e, ast.Call) and isinstance(e.func, ast.Attribute) and e.func.attr in ('values', 'keys', 'items') and isinstance(e.func.value, ast.Name):
+            return False, None
         return None, None    # not understood
     for d in defs:
         o, s = ok_expr(d.value)
@@ -322,7 +325,7 @@ def check_delegate(ctx, rp, q):
         if o is True:
             ctx.ok('R-ORDER', q, where, '%s built from %s in order' % (lname, sorted(leaves)))
         elif o is False:
-            ctx.violation(Finding('R-ORDER', rp, q, st, 'the path list is reordered before the files are stacked'))
+            ctx.violation(Finding('R-ORDER', rp, q, st, 'the list of opened files is not the path list in order (reordered, or taken from a dictionary that keeps one entry per distinct path): inputs are missing or stacked out of order'))
         else:
             ctx.undec('R-ORDER', q, where, 'definition of %s not understood' % lname)
         # the iterated paths themselves
